@@ -37,9 +37,7 @@ theorem createObject_cases (st : Store) (f : List Char) (a : Bool) :
   · split
     · exact ⟨rfl, Or.inl ⟨_, rfl, rfl, rfl, rfl⟩⟩
     · exact ⟨rfl, Or.inr ⟨rfl, rfl, rfl⟩⟩
-  · split
-    · exact ⟨rfl, Or.inl ⟨_, rfl, rfl, rfl, rfl⟩⟩
-    · exact ⟨rfl, Or.inr ⟨rfl, rfl, rfl⟩⟩
+  · exact ⟨rfl, Or.inr ⟨rfl, rfl, rfl⟩⟩
 
 theorem createG_cases (g : GStore) (f : List Char) (a : Bool) (rs : List Nat) :
     (createG g f a rs).1.shared = g.shared ∧ (createG g f a rs).1.components = g.components ∧
@@ -101,11 +99,88 @@ theorem addComponentMetadata_fileOf (st : Store) (i : Nat) (p l : List Char) :
   simp only
   split <;> rfl
 
+/-! ### which member a new object goes to -/
+
+theorem mem_iwaPaths (files : List (List Char × Option (List Nat))) (f path : List Char) (segs : List Nat) :
+    (path, segs) ∈ iwaPaths files f ↔ ((path, some segs) ∈ files ∧ isInfix f path = true) := by
+  unfold iwaPaths
+  rw [List.mem_filterMap]
+  constructor
+  · rintro ⟨⟨n, o⟩, hm, he⟩
+    cases o with
+    | none => simp at he
+    | some s =>
+      simp only at he
+      split at he
+      · rename_i hin
+        simp only [Option.some.injEq, Prod.mk.injEq] at he
+        obtain ⟨rfl, rfl⟩ := he
+        exact ⟨hm, hin⟩
+      · cases he
+  · rintro ⟨hm, hin⟩
+    exact ⟨(path, some segs), hm, by simp [hin]⟩
+
+theorem createObject_noappend_ok (st : Store) (f : List Char) : (createObject st f false).2 = .ok (st.maxId + 1) := by
+  unfold createObject newMessageId
+  simp only
+  split
+  · simp
+  · rfl
+
+theorem createObject_append_cases (st : Store) (f : List Char) :
+    (createObject st f true).2 = .ok (st.maxId + 1) ∨
+    ((createObject st f true).2 = .error .KeyError ∧ iwaPaths st.files f = []) := by
+  unfold createObject newMessageId
+  simp only
+  split
+  · rename_i h; exact Or.inr ⟨by simp, h⟩
+  · exact Or.inl rfl
+
+theorem createObject_first_member (st : Store) (f : List Char) (a : Bool) (path : List Char) (segs : List Nat)
+    (rest : List (List Char × List Nat)) (h : iwaPaths st.files f = (path, segs) :: rest) :
+    (createObject st f a).2 = .ok (st.maxId + 1) ∧
+    dictGet? (createObject st f a).1.files path = some (some (segs ++ [st.maxId + 1])) ∧
+    dictGet? (createObject st f a).1.fileOf (st.maxId + 1) = some path := by
+  unfold createObject newMessageId
+  simp only [h]
+  exact ⟨trivial, by rw [dictGet?_dictSet, if_pos rfl], by rw [dictGet?_dictSet, if_pos rfl]⟩
+
+theorem createObject_filed (st : Store) (f : List Char) (a : Bool) (id : Nat) (h : (createObject st f a).2 = .ok id) :
+    ∃ path segs, dictGet? (createObject st f a).1.fileOf id = some path ∧
+      dictGet? (createObject st f a).1.files path = some (some segs) ∧ id ∈ segs := by
+  unfold createObject newMessageId at h ⊢
+  simp only at h ⊢
+  split
+  · rename_i hp
+    simp only [hp] at h
+    split at h
+    · cases h
+    · rename_i ha
+      simp only [Except.ok.injEq] at h
+      subst h
+      simp only [ha, Bool.false_eq_true, if_false]
+      exact ⟨_, _, by rw [dictGet?_dictSet, if_pos rfl], by rw [dictGet?_dictSet, if_pos rfl], by simp⟩
+  · rename_i path segs rest hp
+    simp only [hp, Except.ok.injEq] at h
+    subst h
+    exact ⟨_, _, by rw [dictGet?_dictSet, if_pos rfl], by rw [dictGet?_dictSet, if_pos rfl], by simp⟩
+
 /-! ### update_object_file_store -/
 
 /-- object `i` is filed: `_object_to_filename_map[i]` names an IWA file whose archives include `i` -/
 def Filed (g : GStore) (i : Nat) : Prop :=
   ∃ path segs, dictGet? g.fileOf i = some path ∧ dictGet? g.files path = some (some segs) ∧ i ∈ segs
+
+theorem createG_filed (g : GStore) (f : List Char) (a : Bool) (rs : List Nat) (id : Nat)
+    (h : (createG g f a rs).2 = .ok id) : Filed (createG g f a rs).1 id := by
+  have key : (createG g f a rs).1.toStore = (createObject g.toStore f a).1 ∧ (createG g f a rs).2 = (createObject g.toStore f a).2 := by
+    unfold createG
+    split <;> rename_i heq <;> rw [heq] <;> exact ⟨rfl, rfl⟩
+  rw [key.2] at h
+  obtain ⟨path, segs, h1, h2, h3⟩ := createObject_filed g.toStore f a id h
+  refine ⟨path, segs, ?_, ?_, h3⟩
+  · show dictGet? (createG g f a rs).1.toStore.fileOf id = _; rw [key.1]; exact h1
+  · show dictGet? (createG g f a rs).1.toStore.files path = _; rw [key.1]; exact h2
 
 theorem wellFiled_iff (g : GStore) : wellFiled g = true ↔ ∀ i ∈ g.ids, Filed g i := by
   unfold wellFiled Filed
@@ -528,6 +603,222 @@ theorem closed_run {ex : Nat → Bool} {g0 : GStore} (ops : List GOp) (g : GStor
     simp only [targetsExistEx, Bool.and_eq_true] at hops
     simp only [runG, List.foldl_cons]
     exact ih (stepG g op) (closed_step h op hops.1) hops.2
+
+/-! ### stored objects stay filed -/
+
+theorem dictGet?_of_mem_nodup {κ β : Type} [DecidableEq κ] (d : List (κ × β)) (k : κ) (v : β) (hn : (dictKeys d).Nodup)
+    (hm : (k, v) ∈ d) : dictGet? d k = some v := by
+  induction d with
+  | nil => cases hm
+  | cons a r ih =>
+    obtain ⟨k', v'⟩ := a
+    simp only [dictKeys, List.map_cons, List.nodup_cons] at hn
+    simp only [dictGet?]
+    rcases List.mem_cons.mp hm with h | h
+    · injection h with h1 h2; subst h1; subst h2; simp
+    · have hne : k' ≠ k := by
+        rintro rfl
+        exact hn.1 (List.mem_map.mpr ⟨(k', v), h, rfl⟩)
+      rw [if_neg hne]
+      exact ih hn.2 h
+
+/-- an object already filed stays filed through a creation, when the file store is a dict (distinct member names) and the
+    name a NEW member would get is not taken -/
+theorem createObject_keeps_filed (st : Store) (f : List Char) (a : Bool) (i : Nat)
+    (hk : (dictKeys st.files).Nodup) (hne : i ≠ st.maxId + 1)
+    (hnew : iwaPaths st.files f = [] → a = false →
+      dictGet? st.files (pyFormat1 f (natStr (st.maxId + 1)) ++ ".iwa".toList) = none)
+    (hf : ∃ path segs, dictGet? st.fileOf i = some path ∧ dictGet? st.files path = some (some segs) ∧ i ∈ segs) :
+    ∃ path segs, dictGet? (createObject st f a).1.fileOf i = some path ∧
+      dictGet? (createObject st f a).1.files path = some (some segs) ∧ i ∈ segs := by
+  obtain ⟨path, segs, h1, h2, h3⟩ := hf
+  unfold createObject newMessageId
+  simp only
+  split
+  · rename_i hp
+    split
+    · exact ⟨path, segs, h1, h2, h3⟩
+    · rename_i ha
+      have hnone := hnew hp (by simpa using ha)
+      have hpne : pyFormat1 f (natStr (st.maxId + 1)) ++ ".iwa".toList ≠ path := by
+        rintro e; rw [e, h2] at hnone; cases hnone
+      refine ⟨path, segs, ?_, ?_, h3⟩
+      · rw [dictGet?_dictSet, if_neg (Ne.symm hne)]; exact h1
+      · rw [dictGet?_dictSet, if_neg hpne]; exact h2
+  · rename_i path0 segs0 rest hp
+    have hmem : (path0, some segs0) ∈ st.files :=
+      ((mem_iwaPaths st.files f path0 segs0).mp (by rw [hp]; exact List.mem_cons_self)).1
+    have hget := dictGet?_of_mem_nodup st.files path0 (some segs0) hk hmem
+    by_cases hpp : path0 = path
+    · subst hpp
+      rw [hget] at h2
+      injection h2 with h2; injection h2 with h2; subst h2
+      refine ⟨path0, segs0 ++ [st.maxId + 1], ?_, ?_, List.mem_append_left _ h3⟩
+      · rw [dictGet?_dictSet, if_neg (Ne.symm hne)]; exact h1
+      · rw [dictGet?_dictSet, if_pos rfl]
+    · refine ⟨path, segs, ?_, ?_, h3⟩
+      · rw [dictGet?_dictSet, if_neg (Ne.symm hne)]; exact h1
+      · rw [dictGet?_dictSet, if_neg hpp]; exact h2
+
+theorem createG_toStore' (g : GStore) (f : List Char) (a : Bool) (rs : List Nat) :
+    (createG g f a rs).1.toStore = (createObject g.toStore f a).1 ∧ (createG g f a rs).2 = (createObject g.toStore f a).2 := by
+  unfold createG
+  split <;> rename_i heq <;> rw [heq] <;> exact ⟨rfl, rfl⟩
+
+/-- `wellFiled` is kept by a creation under the two side conditions -/
+theorem wellFiled_createG (g : GStore) (f : List Char) (a : Bool) (rs : List Nat)
+    (hw : wellFiled g = true) (hk : (dictKeys g.files).Nodup) (hb : ∀ i ∈ g.ids, i ≤ g.maxId)
+    (hnew : iwaPaths g.files f = [] → a = false →
+      dictGet? g.files (pyFormat1 f (natStr (g.maxId + 1)) ++ ".iwa".toList) = none) :
+    wellFiled (createG g f a rs).1 = true := by
+  rw [wellFiled_iff] at hw ⊢
+  obtain ⟨e1, e2⟩ := createG_toStore' g f a rs
+  have old : ∀ i ∈ g.ids, Filed (createG g f a rs).1 i := by
+    intro i hi
+    have hne : i ≠ g.maxId + 1 := by have := hb i hi; omega
+    obtain ⟨p, s, q1, q2, q3⟩ := createObject_keeps_filed g.toStore f a i hk hne hnew (hw i hi)
+    refine ⟨p, s, ?_, ?_, q3⟩
+    · show dictGet? (createG g f a rs).1.toStore.fileOf i = _; rw [e1]; exact q1
+    · show dictGet? (createG g f a rs).1.toStore.files p = _; rw [e1]; exact q2
+  intro i hi
+  obtain ⟨_, _, hc⟩ := createG_cases g f a rs
+  rcases hc with ⟨e, _, hids, _⟩ | ⟨hok, hids, _⟩
+  · rw [hids] at hi; exact old i hi
+  · rw [hids, mem_setAdd] at hi
+    rcases hi with hi | rfl
+    · exact old i hi
+    · exact createG_filed g f a rs _ hok
+
+/-! ### `wellFiled` over histories -/
+
+theorem dictKeys_dictSet_nodup {κ β : Type} [DecidableEq κ] (d : List (κ × β)) (k : κ) (v : β) (h : (dictKeys d).Nodup) :
+    (dictKeys (dictSet d k v)).Nodup := by
+  by_cases hk : k ∈ dictKeys d
+  · have : dictKeys (dictSet d k v) = dictKeys d := by
+      clear h
+      induction d with
+      | nil => simp [dictKeys] at hk
+      | cons a r ih =>
+        obtain ⟨k', v'⟩ := a
+        simp only [dictSet]
+        split
+        · simp [dictKeys]
+        · rename_i hne
+          simp only [dictKeys, List.map_cons, List.mem_cons] at hk ⊢
+          rcases hk with rfl | hk
+          · exact absurd rfl hne
+          · have := ih hk
+            simp only [dictKeys] at this
+            rw [this]
+    rw [this]; exact h
+  · rw [dictKeys_dictSet_fresh d k v hk]
+    exact List.nodup_append.mpr ⟨h, by simp, by
+      intro a ha b hb
+      simp only [List.mem_singleton] at hb; subst hb
+      rintro rfl; exact hk ha⟩
+
+/-- the file store is a dict, every stored object is filed, no identifier is above the high-water mark -/
+def FiledInv (g : GStore) : Prop :=
+  wellFiled g = true ∧ (dictKeys g.files).Nodup ∧ ∀ i ∈ g.ids, i ≤ g.maxId
+
+theorem FiledInv.of_same {g g' : GStore} (h : FiledInv g) (hids : g'.ids = g.ids) (hf : g'.files = g.files)
+    (hfo : g'.fileOf = g.fileOf) (hm : g'.maxId = g.maxId) : FiledInv g' := by
+  obtain ⟨h1, h2, h3⟩ := h
+  refine ⟨?_, by rw [hf]; exact h2, by rw [hids, hm]; exact h3⟩
+  unfold wellFiled at h1 ⊢
+  rw [hids, hf, hfo]; exact h1
+
+theorem createObject_maxId_files (st : Store) (f : List Char) (a : Bool) :
+    (createObject st f a).1.maxId = st.maxId + 1 ∧
+    ((dictKeys st.files).Nodup → (dictKeys (createObject st f a).1.files).Nodup) := by
+  unfold createObject newMessageId
+  simp only
+  split
+  · split
+    · exact ⟨rfl, id⟩
+    · exact ⟨rfl, dictKeys_dictSet_nodup _ _ _⟩
+  · exact ⟨rfl, dictKeys_dictSet_nodup _ _ _⟩
+
+/-- the side condition on one operation: a creation that makes a NEW member does not take the name of an existing one
+    (`create_object_from_dict` tests the unformatted pattern, then stores under `pattern.format(id) + ".iwa"`) -/
+def opNameFree (g : GStore) : GOp → Bool
+  | .create f a _ => !(iwaPaths g.files f).isEmpty || a ||
+      (dictGet? g.files (pyFormat1 f (natStr (g.maxId + 1)) ++ ".iwa".toList)).isNone
+  | _ => true
+
+def namesFree : GStore → List GOp → Bool
+  | _, [] => true
+  | g, op :: r => opNameFree g op && namesFree (stepG g op) r
+
+theorem filedInv_step {g : GStore} (h : FiledInv g) (op : GOp) (hop : opNameFree g op = true) : FiledInv (stepG g op) := by
+  cases op with
+  | create f a rs =>
+    simp only [stepG]
+    obtain ⟨h1, h2, h3⟩ := h
+    obtain ⟨e1, _⟩ := createG_toStore' g f a rs
+    obtain ⟨m1, m2⟩ := createObject_maxId_files g.toStore f a
+    refine ⟨wellFiled_createG g f a rs h1 h2 h3 ?_, ?_, ?_⟩
+    · intro hp ha
+      simp only [opNameFree, hp, ha, List.isEmpty_nil, Bool.not_true, Bool.or_false, Bool.false_or, Option.isNone_iff_eq_none] at hop
+      exact hop
+    · show (dictKeys (createG g f a rs).1.toStore.files).Nodup
+      rw [e1]; exact m2 h2
+    · intro i hi
+      have hm : (createG g f a rs).1.maxId = g.maxId + 1 := by
+        show (createG g f a rs).1.toStore.maxId = _; rw [e1]; exact m1
+      rw [hm]
+      obtain ⟨_, _, hc⟩ := createG_cases g f a rs
+      rcases hc with ⟨e, _, hids, _⟩ | ⟨_, hids, _⟩
+      · rw [hids] at hi; have := h3 i hi; omega
+      · rw [hids, mem_setAdd] at hi
+        rcases hi with hi | rfl
+        · have := h3 i hi; omega
+        · exact Nat.le_refl _
+  | addMeta i p l =>
+    obtain ⟨a1, a2, _, a4⟩ := addComponentMetadata_ids g.toStore i p l
+    exact h.of_same a1 a4 (addComponentMetadata_fileOf g.toStore i p l) a2
+  | extRef i l c w =>
+    obtain ⟨a1, a2, a3, a4⟩ := addComponentReference_fields g.toStore i l c w
+    exact h.of_same a1 a3 a4 a2
+  | addRef o t =>
+    have e := (addRef_fields g o t).1
+    exact h.of_same (congrArg Store.ids e) (congrArg Store.files e) (congrArg Store.fileOf e) (congrArg Store.maxId e)
+  | clearRef o t =>
+    have e := (clearRef_fields g o t).1
+    exact h.of_same (congrArg Store.ids e) (congrArg Store.files e) (congrArg Store.fileOf e) (congrArg Store.maxId e)
+  | setRef o a t =>
+    have e := (setRef_fields g o a t).1
+    exact h.of_same (congrArg Store.ids e) (congrArg Store.files e) (congrArg Store.fileOf e) (congrArg Store.maxId e)
+  | update =>
+    have e := (copyAll_weak g g.ids).1
+    exact h.of_same (congrArg Store.ids e) (congrArg Store.files e) (congrArg Store.fileOf e) (congrArg Store.maxId e)
+  | blob n =>
+    simp only [stepG, storeBlob]
+    split
+    · exact h
+    · rename_i hn
+      obtain ⟨h1, h2, h3⟩ := h
+      have hnone : dictGet? g.files n = none := by
+        cases hh : dictGet? g.files n with
+        | none => rfl
+        | some v => rw [hh] at hn; simp at hn
+      refine ⟨?_, dictKeys_dictSet_nodup _ _ _ h2, h3⟩
+      rw [wellFiled_iff] at h1 ⊢
+      intro i hi
+      obtain ⟨p, s, q1, q2, q3⟩ := h1 i hi
+      refine ⟨p, s, q1, ?_, q3⟩
+      show dictGet? (dictSet g.files n none) p = _
+      have hne : n ≠ p := by rintro rfl; rw [q2] at hnone; cases hnone
+      rw [dictGet?_dictSet, if_neg hne]; exact q2
+
+theorem filedInv_run (ops : List GOp) (g : GStore) (h : FiledInv g) (hops : namesFree g ops = true) : FiledInv (runG g ops) := by
+  induction ops generalizing g with
+  | nil => exact h
+  | cons op r ih =>
+    simp only [namesFree, Bool.and_eq_true] at hops
+    simp only [runG, List.foldl_cons]
+    exact ih (stepG g op) (filedInv_step h op hops.1) hops.2
+
 
 /-! ### the inventory over histories -/
 
